@@ -136,7 +136,7 @@ _add(
          "functional trace forms on 5-30 step histories. One evaluation = one step / view / dump / clear judged "
          "against the closed form over the recorded event list. distinct = (reducer, operation, first/later, record "
          "size class, inplace, observation kind, dt, events/quiet, view mode and grid position) abstractions.",
-    required=["steps_checked", "views_checked", "dumps_checked", "clears", "functional_steps_checked", "dt_reassignments", "nonfloat_observations", "views_with_tolerance", "observations_overwritten_by_the_caller_afterwards", "observations_with_zero_contribution_events"],
+    required=["configuration_checks", "steps_checked", "views_checked", "dumps_checked", "clears", "functional_steps_checked", "dt_reassignments", "nonfloat_observations", "views_with_tolerance", "observations_overwritten_by_the_caller_afterwards", "observations_with_zero_contribution_events"],
     floor={"quick": 250, "thorough": 600},
     text="Held on every history explored: after each observation the value reported by the real reducer (run in "
          "float64) is compared with the closed-form sum over the recorded event list, views are compared with the value "
@@ -298,7 +298,7 @@ _add(
          "bounding functions check the routing; plus linear homeostasis on weight / bias / delay with plasticity of both "
          "signs and observed rates above and below target (direction of the applied change). One evaluation = one "
          "trainer step judged; distinct = (trainer, cell type, sign mode, reduction, reward kind, delay mode, ...).",
-    required=["parts_checked", "trainer_steps_checked", "routing_steps_checked", "homeostasis_steps_checked", "three_factor_steps_with_negative_scale.tensor_signal", "three_factor_steps_with_negative_scale.scalar_signal", "routing_cases_with_a_half_bound_removed"],
+    required=["routing_cases_with_another_accumulator_half_bound_afterwards", "parts_checked", "trainer_steps_checked", "routing_steps_checked", "homeostasis_steps_checked", "three_factor_steps_with_negative_scale.tensor_signal", "three_factor_steps_with_negative_scale.scalar_signal", "routing_cases_with_a_half_bound_removed"],
     floor={"quick": 60, "thorough": 200},
     text="Held on every history explored (apart from the listed findings): every tensor a real trainer assigns to an "
          "Accumulator is checked to be element-wise non-negative at the moment of assignment, potentiation minus "
@@ -317,7 +317,7 @@ _add(
          "different (sample 0 silent, sample 1 saturated, the rest random); 5-25 steps each. One evaluation = one step in "
          "which every sample of every observable is compared with its single-sample twin (or the sum of per-sample "
          "trainer steps); distinct = (component kind, class, batch size, delay, ...).",
-    required=["steps_checked", "sample_comparisons", "trainer_steps_checked", "resized_components", "mid_run_clears", "single_connection_biclique_steps", "trainer_cases_with_cell_level_reduction", "trainer_cases_with_sign_changing_user_kernel", "trainer_cases_with_library_sum_reducers"],
+    required=["adapting_steps_checked", "adapting_steps_with_batch_size_equal_to_first_neuron_dimension", "steps_checked", "sample_comparisons", "trainer_steps_checked", "resized_components", "mid_run_clears", "single_connection_biclique_steps", "trainer_cases_with_cell_level_reduction", "trainer_cases_with_sign_changing_user_kernel", "trainer_cases_with_library_sum_reducers"],
     floor={"quick": 60, "thorough": 200},
     text="Held on every run explored: sample b of every output, state tensor and history tensor of a batched real "
          "component equals what an identically parameterised batch-size-1 twin produces for that sample alone, at every "
@@ -337,7 +337,7 @@ _add(
          "and compare every output and the complete final state (all state-dict entries incl. extras and non-persistent "
          "buffers) exactly. One evaluation = one checkpoint position; distinct = (layer, trainer, reducer, classifier, "
          "target kind, position class, delay, in-place).",
-    required=["checkpoints_loaded_a_second_time_after_the_first_replica_ran", "cloned_targets", "checkpoint_positions_checked", "restored_steps_compared", "final_states_compared", "phase_mismatch_probes", "checkpoints_with_pending_updates", "checkpoints_of_histories_grown_by_setters", "checkpoints_after_in_place_changes_of_trainer_buffers", "checkpoints_with_a_monitor_reading_state_before_the_step", "checkpoints_with_a_difference_monitor"],
+    required=["checkpoints_with_pending_updates_into_a_target_whose_pending_parts_were_read", "checkpoints_loaded_a_second_time_after_the_first_replica_ran", "cloned_targets", "checkpoint_positions_checked", "restored_steps_compared", "final_states_compared", "phase_mismatch_probes", "checkpoints_with_pending_updates", "checkpoints_of_histories_grown_by_setters", "checkpoints_after_in_place_changes_of_trainer_buffers", "checkpoints_with_a_monitor_reading_state_before_the_step", "checkpoints_with_a_difference_monitor"],
     floor={"quick": 20, "thorough": 120},
     shards={"quick": 8, "thorough": 32},
     exhaustive={"quick": ["every checkpoint position k in 0..T of each generated run"], "thorough": ["every checkpoint position k in 0..T of each generated run"]},
@@ -356,7 +356,7 @@ _add(
          "configuration is compared (reported configuration, recordsz/dt/duration/inclusive of every internal "
          "RecordTensor, outputs from a cleared state on the same inputs). One evaluation = one assignment judged; "
          "distinct = (component kind, class, assigned attribute).",
-    required=["connection_maximum_delay_assignments", "assignments_checked", "twin_comparisons", "output_comparisons", "assignments_after_use", "configured_dtype_checks", "resting_state_comparisons", "recurrent_layer_cases"],
+    required=["refused_assignments_checked", "connection_maximum_delay_assignments", "assignments_checked", "twin_comparisons", "output_comparisons", "assignments_after_use", "configured_dtype_checks", "resting_state_comparisons", "recurrent_layer_cases"],
     floor={"quick": 40, "thorough": 80},
     text="Held on every assignment sequence explored: each real property setter reports the assigned value back, leaves "
          "every other reported attribute unchanged, and the setter-built object is indistinguishable - configuration, "
@@ -375,7 +375,7 @@ _add(
          "expected number of folds (1 iff trainer and that cell's layer are training, else 0) and probe monitors for "
          "holding the current attribute of their own layer. One evaluation = one operation; non-trivial = everything but "
          "bare mode switches; distinct = (operation, trainer kind, layer, registration counts, sharing, modes).",
-    required=["layer_steps", "slot_observations_checked", "probe_values_checked", "trainer_steps", "listing_checks", "rejected_duplicate_registrations", "cells_died_without_removal", "unit_listing_checks", "repeated_add_monitor_calls", "probes_of_other_monitor_kinds", "probes_on_cell_alias_attributes", "trainer_clears_with_keepshape"],
+    required=["cells_stripped_of_monitors_then_reregistered", "layer_steps", "slot_observations_checked", "probe_values_checked", "trainer_steps", "listing_checks", "rejected_duplicate_registrations", "cells_died_without_removal", "unit_listing_checks", "repeated_add_monitor_calls", "probes_of_other_monitor_kinds", "probes_on_cell_alias_attributes", "trainer_clears_with_keepshape"],
     floor={"quick": 100, "thorough": 300},
     text="Held on every operation sequence explored (apart from listed findings): fold counts per registered monitor "
          "slot follow an explicit registration / mode state machine after every layer step, probe monitors hold the "
